@@ -23,6 +23,7 @@ type c13Session struct {
 	nreq   int
 	gateEvery int
 	shift  int // payload length of a leading Twrite: moves every later frame boundary relative to the receive buffer
+	odd    int // >0: after every odd-th request a well-formed frame that is not a request (an R-message, small or as large as msize allows)
 }
 
 type c13Out struct {
@@ -87,6 +88,21 @@ func (ss c13Session) run(cuts []int, chunk int) (*c13Out, []byte) {
 				m = &wire.Msg{Type: wire.Tread, Tag: tag, Fid: fid, Offset: uint64(i * 3), Count: uint32(1 + i%16)}
 			}
 			msgs = append(msgs, m)
+			if ss.odd > 0 && i%ss.odd == ss.odd-1 {
+				// the server answers such a frame with an error under its tag and goes on
+				switch (i / ss.odd) % 3 {
+				case 0:
+					d := make([]byte, int(ss.msize)-11)
+					for j := range d {
+						d[j] = byte(j*5 + i)
+					}
+					msgs = append(msgs, &wire.Msg{Type: wire.Rread, Tag: uint16(600 + i), Data: d})
+				case 1:
+					msgs = append(msgs, &wire.Msg{Type: wire.Rflush, Tag: uint16(600 + i)})
+				case 2:
+					msgs = append(msgs, &wire.Msg{Type: wire.Rwalk, Tag: uint16(600 + i), Wqid: []wire.Qid{{Type: 1, Vers: 2, Path: 3}, {Type: 4, Vers: 5, Path: 6}}})
+				}
+			}
 		}
 		stream = nil
 		for _, m := range msgs {
@@ -320,6 +336,9 @@ func c13VersionStreamX(srvDotu bool, ver string, srvMsize, cliMsize uint32, over
 
 func c13ServerScenario(ss c13Session, mode string, lo, hi int) Scenario {
 	name := fmt.Sprintf("server msize=%d dotu=%v nreq=%d gated=%d %s[%d:%d]", ss.msize, ss.dotu, ss.nreq, ss.gateEvery, mode, lo, hi)
+	if ss.odd > 0 {
+		name += fmt.Sprintf(" non-request-frames-every=%d", ss.odd)
+	}
 	return Scenario{Name: name, Run: func(c *RunCtx) *Result {
 		res := &Result{Exhaustive: true, Bounds: map[string]any{}}
 		if mode == "align" {
@@ -363,6 +382,9 @@ func c13ServerScenario(ss c13Session, mode string, lo, hi int) Scenario {
 		want := ss.nreq
 		if ss.shift >= 0 {
 			want++
+		}
+		if ss.odd > 0 {
+			want += ss.nreq / ss.odd
 		}
 		if ref.err != "" || len(ref.replies) != want {
 			res.Findings = append(res.Findings, Finding{Sig: "C13/reference-run-failed", Msg: fmt.Sprintf("unsegmented run: %s (%d replies for %d requests)", ref.err, len(ref.replies), want)})
@@ -649,6 +671,12 @@ func c13Scenarios(tier string) []Scenario {
 	if tier == "thorough" {
 		sessions = append(sessions, c13Session{msize: 256, dotu: false, nreq: 60, gateEvery: 5, shift: -1}, c13Session{msize: 4096, dotu: true, nreq: 25, gateEvery: 5, shift: 100})
 	}
+	// frames that are well formed but not requests, spread over a stream that wraps the receive buffer
+	oddS := c13Session{msize: 64, dotu: false, nreq: 45, gateEvery: 0, shift: -1, odd: 2}
+	for lo := 0; lo < 2400; lo += 240 {
+		out = append(out, c13ServerScenario(oddS, "single", lo, lo+240))
+	}
+	out = append(out, c13ServerScenario(oddS, "chunks", 0, 0))
 	// messages larger than 64 KiB (msize 70000 and 1 MiB)
 	out = append(out, c13ServerScenario(c13Session{msize: 70000, dotu: true, nreq: 6, gateEvery: 0, shift: -1}, "frame-ends", 0, 0))
 	if tier == "thorough" {
